@@ -969,17 +969,17 @@ def fixed_cases():
                  (V(1, 0, dev=1), V(1, 0, pre=['a', 1])), (V(2, 0), V(0, 1, epoch=1))]:
         for sm in (True, False):
             out.append({'prop': 'compat', 'fn': 'compat', 'req': render_v(r), 'cur': render_v(c), 'same_major': sm,
-                         'req_struct': r, 'cur_struct': c})
+                        'req_struct': r, 'cur_struct': c})
     for op in OPS:
         for cand in (V(1, 0), V(1, 5), V(2, 0)):
             out.append({'prop': 'pred', 'fn': 'pred', 'comps': [[op, V(1, 5)]], 'pred': op + '1.5',
-                         'ver': render_v(cand), 'ver_struct': cand, 'malformed': None})
+                        'ver': render_v(cand), 'ver_struct': cand, 'malformed': None})
     for cand in (V(1, 0), V(1, 5), V(2, 0), V(3)):
         out.append({'prop': 'pred', 'fn': 'pred', 'comps': [['>=', V(1, 5)], ['!=', V(2, 0)], ['<', V(3)]],
-                     'pred': '>=1.5, !=2.0 ,<3', 'ver': render_v(cand), 'ver_struct': cand, 'malformed': None})
+                    'pred': '>=1.5, !=2.0 ,<3', 'ver': render_v(cand), 'ver_struct': cand, 'malformed': None})
     for bad in ('', ',', '1.0', '>=', '>= 1.0 2', '=1.0', '~=1.0', '>=1.0,', '>=x'):
         out.append({'prop': 'pred', 'fn': 'pred', 'comps': [], 'pred': bad, 'ver': '1.0', 'ver_struct': V(1, 0),
-                     'malformed': 'fixed'})
+                    'malformed': 'fixed'})
     return out
 
 
